@@ -309,6 +309,30 @@ def run_sampling(ctx):
                                 ctx.violation('element(func)', cfg + ';' + name, 'not-in-space')
                         except Exception as e:
                             ctx.violation('element(func)', cfg + ';' + name, 'raises:' + type(e).__name__, message=str(e)[:200], shape=shape)
+    # one vectorised function object used again and again with keyword arguments that change the type of its values
+    # (int, float, int again, complex): what it remembers from earlier calls must not leak into later ones
+    if ctx.shard == 0:
+        @odl.util.vectorize
+        def step(x, height=1, thr=0.0):
+            # one type per call (numpy.vectorize takes the output type from the first point, as documented)
+            return height if x[0] > thr else type(height)(0)
+        hist = [dict(height=1), dict(height=0.5), dict(height=2), dict(height=-0.25, thr=0.3), dict(height=3), dict(height=1.5 + 0.5j)]
+        for sname, sp in (('1d', odl.uniform_discr(-1, 1, 6)), ('2d', odl.uniform_discr([-1, 0], [1, 1], (4, 3))), ('1d-c', odl.uniform_discr(-1, 1, 5, dtype=complex))):
+            for k, kw in enumerate(hist):
+                if isinstance(kw['height'], complex) and not sp.is_complex:
+                    continue
+                ctx.ev('sampling')
+                ctx.case('sampling-history;%s' % sname, k)
+                try:
+                    el = sp.element(step, **kw)
+                    exp = np.array([kw['height'] if p[0] > kw.get('thr', 0.0) else 0 for p in sp.points()]).reshape(sp.shape)
+                    if not np.allclose(el.asarray(), exp, rtol=1e-13, atol=1e-13):
+                        ctx.violation('element(func)', 'reused odl.vectorize function;%s' % sname, 'values!=pointwise', call=k, kwargs=str(kw),
+                                      got=el.asarray().ravel()[:6], ref=exp.ravel()[:6])
+                        break
+                except Exception as e:
+                    ctx.violation('element(func)', 'reused odl.vectorize function;%s' % sname, 'raises:' + type(e).__name__, message=str(e)[:200], call=k)
+                    break
     # non-uniform partitions
     rng = ctx.rng('sampling-nonuniform')
     if ctx.shard == 0:
@@ -407,6 +431,13 @@ def run_resampling(ctx):
                 r2 = linear_deform(templ, disp, interp, out=out)
                 if r2 is not out or not np.allclose(out, res, rtol=1e-13, atol=1e-13):
                     ctx.violation('linear_deform', cfg, 'out=!=oop')
+                # `out` in other memory layouts (Fortran order, strided view of a larger array)
+                big = np.full(tuple(2 * k for k in sp.shape), np.nan)
+                for lname, o2 in (('F', np.full(sp.shape, np.nan, order='F')), ('strided', big[tuple(slice(None, None, 2) for _ in sp.shape)])):
+                    ctx.ev('resampling')
+                    r3 = linear_deform(templ, disp, interp, out=o2)
+                    if r3 is not o2 or not np.allclose(o2, res, rtol=1e-13, atol=1e-13, equal_nan=False):
+                        ctx.violation('linear_deform', cfg + ';out-layout=' + lname, 'out=!=oop')
                 cvs = [np.asarray(cv) for cv in sp.grid.coord_vectors]
                 f = np.asarray(templ)
                 for ix in np.ndindex(*sp.shape):
